@@ -32,7 +32,7 @@ class C08Run(E2Run):
     prop = "C08"
 
     def profile(self) -> Dict:
-        return {"topologies": ["routed", "routed2", "routed2", "firewall", "lan", "wireless"], "max_hosts_per_subnet": 2, "tight_links": 0.0, "random_acl_rules": (0, 2), "permit_all_rule": 0.85, "avoid": ["listen_on_ports", "tight_links"]}
+        return {"topologies": ["routed", "routed2", "routed2", "firewall", "lan", "wireless", "dualgw"], "max_hosts_per_subnet": 2, "tight_links": 0.0, "random_acl_rules": (0, 2), "permit_all_rule": 0.85, "l2_loop": 0.5, "avoid": ["listen_on_ports", "tight_links"]}
 
     def tweak_scenario(self):
         r = self.ops_rng
@@ -192,6 +192,11 @@ class C08Run(E2Run):
         back, why_b = topo.walk(dst, self.ip[src], self.icmp_pkt(self.ip[dst], self.ip[src])) if fwd is not None else (None, "")
         icmp_ok = all(n.software_manager.software.get("icmp") is not None and n.software_manager.software["icmp"].operating_state.name == "RUNNING" for n in (s, d))
         expect = fwd is not None and back is not None and icmp_ok and s.operating_state.name == "ON" and d.operating_state.name == "ON"
+        if self.inv.get("l2_loop"):
+            # switches joined by two links: address tables flap while flooded frames circulate, delivery is not promised;
+            # termination, TTL and addressee oracles still apply
+            expect = False
+            self.probe("c08_ping_in_layer2_loop")
         self.trace.clear()
         got = self.guarded(f"ping {src} -> {dst}", lambda: s.ping(self.ip[dst], pings=pings))
         # which devices did the echo request visit?
@@ -279,7 +284,7 @@ class C08Run(E2Run):
         self.trace.clear()
         conn = self.guarded(f"database connect {src} -> {dst}", lambda: app.get_new_connection())
         self.raise_pending()
-        if fwd is not None and back is not None and ready and pw_ok and room:
+        if fwd is not None and back is not None and ready and pw_ok and room and not self.inv.get("l2_loop"):
             self.probe("c08_service_exchange_expected")
             if conn is None:
                 raise Violation("C08", "permitted-exchange-fails", f"database connection {src} -> {dst} failed although the reference walk finds a permitted path {fwd} / {back}, both ends are running, the password matches and there is room", sig=f"permitted-exchange-fails:database:{'direct' if len(fwd) == 1 else 'routed'}", detail={"forward": fwd, "back": back})
